@@ -81,6 +81,7 @@ def run(ctx):
             "the printed TypeScript types and the runtime JSON of each definition are not modelled for C14: they enter the model as data (defbody), cut by the harness from a reference run; the cut is not trusted (the model's op list re-assembled from the pieces is compared with the complete recorded op list), the theorems quantify over all bodies without an export keyword chunk and that guard is evaluated on every recorded body",
             "an export statement is recognised on the writer-operation list by the chunks the visitors write for it (C14/Model.v: scan); its agreement with the `export const` / `export { … as default }` lines of the generated texts is checked on every case whose configured suffixes are identifier-like",
             "serde/serde_yaml (config text -> struct) is inside the comparison, not modelled: the model starts from which keys are present in the text",
+            "histories: load_config/emit sequences are run on ONE loader instance (one thread of the c14loader driver) and each emission is judged against the configuration text loaded last (C14/Model.v run_loader, theorems C14_history, C14_history_last_config)",
             "the loader's Rust side runs for real: harness/c14-loader compiles /repo/crates/graphql-loader/src/main.rs unmodified as an rlib and drives load_config / initiate_task / get_required_files / load_file / emit_js as loader-core's task.ts does (not executed: that TypeScript glue); that the loader parses every file with file index 0 is modelled by loader_view and compared with a real re-parse",
             "node (when present) as ECMAScript oracle: a share of the texts emit_js returned is really imported",
         ],
